@@ -96,6 +96,36 @@ def gen_histories(ck, n, nmsg, io=False):
     return behs
 
 
+def gen_sweep(io=False):
+    """Deterministic sweep: every start offset of small reader and writer rings, so that every frame of a short
+    message sequence starts at every storage position (incl. the last byte of the storage) once, delivered in
+    bulk, bytewise and frame-by-frame."""
+    behs = []
+    msgs = [[1, 2, 3], [], [0, 0, 5], [7, 0, 8, 9]]
+    kinds = KINDS[:4] if io else KINDS
+    for kind in kinds:
+        for cap in (8, 16):
+            for off in range(cap):
+                for style in ("bulk", "bytewise", "write-read"):
+                    beh = [{"a": "init", "arg": {"kind": kind, "wcap": cap, "woff": (off * 3 + 1) % cap, "rcap": cap, "roff": off, "grow": 2}}]
+                    for m in msgs:
+                        beh.append({"a": "start", "arg": {"data": m}})
+                        if m:
+                            beh.append({"a": "push", "arg": {"n": len(m)}})
+                        beh.append({"a": "end", "arg": {"x": 0}})
+                        if style == "write-read":
+                            beh += [{"a": "flush", "arg": {"n": ALL}}, {"a": "deliver", "arg": {"n": ALL}}, {"a": "recv", "arg": {"x": 0}}]
+                    beh.append({"a": "flush", "arg": {"n": ALL}})
+                    if style == "bytewise":
+                        for _ in range(24):
+                            beh += [{"a": "deliver", "arg": {"n": 1}}, {"a": "recv", "arg": {"x": 0}}]
+                    beh.append({"a": "deliver", "arg": {"n": ALL}})
+                    for _ in range(len(msgs) + 1):
+                        beh.append({"a": "recv", "arg": {"x": 0}})
+                    behs.append(beh)
+    return behs
+
+
 def nontrivial(recs):
     """at least one message was received and the reader or writer ring was wrapped at some step."""
     got = wrapped = False
@@ -148,7 +178,7 @@ def run(tier):
         raise vlib.MachineryError("no behaviours exported")
 
     # B: recorded runs with the shipped codecs validated by TLC
-    hist = gen_histories(ck, cfg["nhist"], cfg["nmsg"])
+    hist = gen_sweep() + gen_histories(ck, cfg["nhist"], cfg["nmsg"])
     recs2, _ = vlib.run_driver(exe, vlib.to_script(hist), timeout=1200)
     events = vlib.merge_trace(hist, recs2)
     for e in events:
@@ -168,7 +198,7 @@ def run(tier):
                           "behaviour": beh[: (ev["i"] + 1)] if ev else None, "tlc_tail": tres.out[-1500:]})
     # B2: the same through mptio: struct stream on socket pairs (push/flush/poll/dispatch)
     exe_io = vlib.build_driver("stream_io", ["stream_io.c"], libs=("mptcore", "mptio"))
-    hist_io = gen_histories(ck, cfg["nhist"] // 2, cfg["nmsg"], io=True)
+    hist_io = gen_sweep(io=True) + gen_histories(ck, cfg["nhist"] // 2, cfg["nmsg"], io=True)
     recs3, _ = vlib.run_driver(exe_io, vlib.to_script(hist_io), timeout=1200)
     events3 = vlib.merge_trace(hist_io, recs3)
     for e in events3:
